@@ -146,4 +146,74 @@ Section Cli.
       ++ (if (is_none file && is_none exprs) || inspect cfg
           then map (fun l => (l, CSText)) (effective_lines stdin) else []).
 
+  (* ------------------------------------------------------------------ *)
+  (* Phase 4: the REPL commands (numbat/src/command.rs CommandRunner::try_run_command as used by
+     Cli::repl_loop).  A line whose first word is a command name is never interpreted:
+       quit / exit          leave the REPL (status 0 if nothing failed before)
+       reset                make_fresh_context + initialize_context: later lines run on a fresh session
+       help, list, info, clear, save   print to stdout (save also writes the history file)
+     and a command with wrong arguments (`list foo`, `save a b`, `quit now`) prints a diagnostic to
+     stderr and the loop CONTINUES — in non-interactive mode too: such a line never changes the exit
+     status, it only makes stderr non-empty. *)
+  Inductive cmd : Type :=
+  | CQuit
+  | CReset
+  | COut (o : list Out)
+  | CErr (d : Out).
+  Variable command : Code -> option cmd.       (* None = CommandControlFlow::NotACommand *)
+  Variable reset_ctx : ctx.                    (* make_fresh_context() followed by initialize_context() *)
+
+  Fixpoint repl_cmd (c : ctx) (lines : list Code) (out err : list Out) : cli_result :=
+    match lines with
+    | [] => mkCli 0 out err
+    | l :: rest =>
+        if is_blank l then repl_cmd c rest out err
+        else match command l with
+             | Some CQuit => mkCli 0 out err
+             | Some CReset => repl_cmd reset_ctx rest out err
+             | Some (COut o) => repl_cmd c rest (out ++ o) err
+             | Some (CErr d) => repl_cmd c rest out (err ++ [d])
+             | None =>
+                 match interpret c l CSText with
+                 | (c1, Done _ _ _ _ _ _ v prints) =>
+                     repl_cmd c1 rest (out ++ map show_print prints ++ show_value v) err
+                 | (_, Fail _ _ _ _ _ _ f _) => mkCli 1 out (err ++ [show_diag f; stopped_repl])
+                 end
+             end
+    end.
+
+  (* Cli::run with the REPL that knows the commands *)
+  Definition cli_full_cmd (cfg : config) (c : ctx) (init_file : option Code)
+             (file : option Code) (exprs : option (list Code)) (stdin : list Code) : cli_result :=
+    let after_init (c2 : ctx) (out : list Out) : cli_result :=
+        let enter_repl := (is_none file && is_none exprs) || inspect cfg in
+        run_inputs_k c2 (code_and_source file exprs) out
+                     (fun c3 out3 => if enter_repl then repl_cmd c3 stdin out3 [] else mkCli 0 out3 []) in
+    let after_prelude (c1 : ctx) (out : list Out) : cli_result :=
+        match (if load_user_init cfg then init_file else None) with
+        | None => after_init c1 out
+        | Some code =>
+            match interpret c1 code CSFile with
+            | (c2, Done _ _ _ _ _ _ v prints) => after_init c2 (out ++ map show_print prints ++ show_value v)
+            | (_, Fail _ _ _ _ _ _ f _) => mkCli 1 out [show_diag f; msg_init]
+            end
+        end in
+    if load_prelude cfg then
+      match interpret c prelude_code CSInternal with
+      | (c1, Done _ _ _ _ _ _ v prints) => after_prelude c1 (map show_print prints ++ show_value v)
+      | (_, Fail _ _ _ _ _ _ f _) => mkCli 1 [] [show_diag f; msg_prelude]
+      end
+    else after_prelude c [].
+
+  (* the lines that are not failing commands *)
+  Fixpoint without_failing_commands (lines : list Code) : list Code :=
+    match lines with
+    | [] => []
+    | l :: rest => match command l with
+                   | Some (CErr _) => if is_blank l then l :: without_failing_commands rest
+                                      else without_failing_commands rest
+                   | _ => l :: without_failing_commands rest
+                   end
+    end.
+
 End Cli.
